@@ -76,6 +76,11 @@ type w1Cfg struct {
 	DelayPm         int  `json:"pubsub_delay_pm"`
 	ExpiredDelayMs  int  `json:"expired_close_delay_ms"`
 	ChannelMaxLen   int  `json:"channel_max_length"`
+	MediumShared    bool `json:"medium_shared_position_sync"`
+	MediumLatest    bool `json:"medium_keep_latest"`
+	MediumQueue     bool `json:"medium_queue"`
+	MediumQueueMax  int  `json:"medium_queue_max"`
+	MediumDelayMs   int  `json:"medium_broadcast_delay_ms"`
 	MetaTTLSec      int  `json:"history_meta_ttl_s"`
 	HistoryMax      int  `json:"history_max_publication_limit"`
 	RecoveryMax     int  `json:"recovery_max_publication_limit"`
@@ -719,6 +724,18 @@ func (w *w1World) setup() error {
 			return ChannelBatchConfig{}
 		}
 	}
+	if cfg.MediumShared || cfg.MediumLatest || cfg.MediumQueue {
+		nc.GetChannelMediumOptions = func(ch string) ChannelMediumOptions {
+			if !chHas(ch, 'm') {
+				return ChannelMediumOptions{}
+			}
+			o := ChannelMediumOptions{SharedPositionSync: cfg.MediumShared, KeepLatestPublication: cfg.MediumLatest, enableQueue: cfg.MediumQueue, queueMaxSize: cfg.MediumQueueMax}
+			if cfg.MediumQueue && !chPositioned(ch) {
+				o.broadcastDelay = time.Duration(cfg.MediumDelayMs) * time.Millisecond
+			}
+			return o
+		}
+	}
 	if w.nodeCfg != nil {
 		w.nodeCfg(&nc)
 	}
@@ -1194,6 +1211,7 @@ var w1Flavours = map[string][]string{
 	"C26": {"_", "p_", "_", "e_"},
 	"C43": {"h_", "ph_", "eh_", "rh_"},
 	"C02": {"r_", "r_"},
+	"C38": {"pm_", "rm_", "m_", "pm_"},
 	"C16": {"f_", "pf_", "rf_", "cf_"},
 	"C14": {"pd_", "rd_", "pfd_", "rd_"},
 	"C03": {"c_", "c_"},
@@ -1217,7 +1235,21 @@ func w1Gen(c *simrt.Choice, prop, tier string) any {
 		cfg.WriteDelayUs = []int{200, 2000}[c.Intn(2)]
 		cfg.WriteTimer = c.Intn(2) == 0
 	}
-	if prop == "C01" && c.Intn(3) > 0 {
+	if prop == "C38" {
+		switch c.Intn(4) {
+		case 0:
+			cfg.MediumShared = true
+		case 1:
+			cfg.MediumLatest = true
+		case 2:
+			cfg.MediumQueue = true
+			cfg.MediumQueueMax = []int{0, 0, 200}[c.Intn(3)]
+			cfg.MediumDelayMs = []int{0, 5}[c.Intn(2)]
+		case 3:
+			cfg.MediumShared, cfg.MediumLatest, cfg.MediumQueue = true, true, true
+		}
+	}
+	if (prop == "C01" || prop == "C38") && c.Intn(3) > 0 {
 		cfg.DropPm = []int{0, 50, 200}[c.Intn(3)]
 		cfg.DupPm = []int{0, 50, 200}[c.Intn(3)]
 		cfg.DelayPm = []int{0, 100, 300}[c.Intn(3)]
@@ -1549,7 +1581,7 @@ func init() {
 			return r.Probes["nontrivial:"+prop] > 0
 		},
 	})
-	for _, p := range []string{"C04", "C05", "C10", "C01", "C06", "C07", "C08", "C09", "C11", "C26", "C43", "C36", "C37", "C02", "C03", "C14", "C16"} {
+	for _, p := range []string{"C04", "C05", "C10", "C01", "C06", "C07", "C08", "C09", "C11", "C26", "C43", "C36", "C37", "C02", "C03", "C14", "C16", "C38"} {
 		simrt.Claim(p, "w1", 10)
 	}
 }
